@@ -49,6 +49,13 @@ def run(F, X, rep):
     c12_f(F, X, rep)
     c12_p(F, X, rep)
     c12_g(F, X, rep)
+    # "(non-zero MPP timeout)": the rejection queued by the gates is delivered only if the lifecycle enters its select;
+    # for a payment without stored state the time to wait is the configured timeout itself, so non-zero means entered
+    import rules_lc as R
+    C = R.Ctx.get(F, X)
+    if R.need_lc(C, rep, "C12-L"):
+        R.t1_timer_value(C, rep, "C12-L")
+        R.t4_not_before(C, rep, "C12-L")
 
 
 def c12_x1(F, X, rep, b):
@@ -131,6 +138,8 @@ def norm(e, roles):
                 return _nop({"add": "Add", "sub": "Sub", "mul": "Mul", "div": "Div"}[m.group(1)], inner[2][0], inner[2][1], roles)
         if e[1] == "0" and inner[0] == "bin" and inner[1].endswith("WithOverflow"):
             return _nop(inner[1][:-len("WithOverflow")], inner[2], inner[3], roles)
+        if e[1] == "0" and e[3] == "Ok" and inner[0] == "call" and inner[1] in ("std::convert::TryFrom::try_from", "std::convert::TryInto::try_into") and inner[2]:
+            return norm(inner[2][0], roles)        # where the narrowing succeeded the value is unchanged
         if e[1] in ("fee_base_msat", "fee_proportional_millionths", "cltv_expiry_delta"):
             return ("leaf", e[1])
         return ("bad", show(e)[:60])
@@ -178,10 +187,18 @@ def c12_x2(F, X, rep, b):
     r = strip(X.local(b, 0))
     # the required amount may be computed by a same-file helper (`fn required_msat(&self, amount) -> Option<u64>`)
     bfile = b.span.get("f")
-    r = strip(mm.inline_pure(F, X, r, depth=2, keep=lambda n: F.by_cdef.get(n) is None or F.by_cdef[n].span.get("f") != bfile or n.startswith("<")))
+    keep = lambda n: F.by_cdef.get(n) is None or F.by_cdef[n].span.get("f") != bfile or n.startswith("<")   # noqa: E731
+    r = strip(mm.inline_pure(F, X, r, depth=2, keep=keep))
     cmps = [a for a in alts(r) if a[0] in ("bin", "un")]
     consts = [a for a in alts(r) if a[0] == "const"]
     other = [a for a in alts(r) if a[0] not in ("bin", "un", "const")]
+    branch_form = None
+    if not cmps and not other and {c[1] for c in consts} == {"true", "false"}:
+        # `matches!(self.required(amount), Some(r) if total >= r)`: the result is a constant per branch; it is `true`
+        # exactly where the conditions of its one `true` assignment hold
+        branch_form = _branch_form(F, X, b, keep)
+        if branch_form is not None:
+            cmps, consts = [branch_form[0]], [c for c in consts if c[1] == "false"]
     rep.ob("C12-X2", len(cmps) == 1 and not other, fn, "one comparison decides the predicate", where=loc(b.span), how=show(r)[:160],
            detail="" if len(cmps) == 1 and not other else "return value is %s" % show(r)[:200])
     for c in consts:
@@ -234,6 +251,49 @@ def c12_x2(F, X, rep, b):
     ok = n == ref
     rep.ob("C12-X2", ok, fn, "normal form equals the reference predicate", where=loc(b.span), how=_shown(n),
            detail="" if ok else "predicate computes total >= %s, expected %s" % (_shown(n), _shown(ref)))
+    prod = ("mul", tuple(sorted([("leaf", "amount"), ("leaf", "fee_proportional_millionths")], key=repr)))
+    if branch_form is not None:
+        # `false` is every other branch: besides the comparison itself only `total < amount` and "the required amount is
+        # None" lead there; the required amount may be None only where the reference sum (or a part of it, or the
+        # amount*ppm product - the checked_mul of the reference) exceeds u64
+        _c, guards, helpers = branch_form
+        for ga, gop, gb in guards:
+            pa, pb = _peel(strip(ga)), _peel(strip(gb))
+            okg = pa[0] == "param" and pb[0] == "param" and ((pa[2], gop, pb[2]) in ((total_i, "Ge", amount_i), (amount_i, "Le", total_i)))
+            rep.ob("C12-X2", okg, fn, "extra condition of `true` is total >= amount", where=loc(b.span), how="%s %s %s" % (show(ga)[:30], gop, show(gb)[:30]),
+                   detail="" if okg else "the predicate also requires %s %s %s" % (show(ga)[:60], gop, show(gb)[:60]))
+        refterms = list(ref[1])
+        for he in helpers:
+            for ha, vf, cf in mm.alternatives_with_facts(F, X, he, depth=2, keep=keep, with_cmp=True):
+                if not (ha[0] == "agg" and ha[2] == "None"):
+                    continue
+                good, why = False, ""
+                for fe, truth in vf:
+                    for a in alts(strip(fe)):
+                        a = _peel(a)
+                        if truth == ("None",) and a[0] == "call" and re.match(r"core::num::<impl \w+>::checked_(add|mul)$", a[1]):
+                            good, why = True, "None arm of a checked op"
+                        if truth == ("Err",) and a[0] == "call" and a[1] in ("std::convert::TryFrom::try_from", "std::convert::TryInto::try_into") and a[2]:
+                            n2 = norm(a[2][0], roles)
+                            t2 = list(n2[1]) if n2[0] == "sum" else [n2]
+                            rest = list(refterms)
+                            sub = True
+                            for t in t2:
+                                if t in rest:
+                                    rest.remove(t)
+                                else:
+                                    sub = False
+                            if sub or n2 == prod:
+                                good, why = True, "a part of the required sum does not fit in u64"
+                for ea_, o3, eb_ in cf:
+                    for big, lim, o4 in ((ea_, eb_, o3), (eb_, ea_, {"Gt": "Lt", "Lt": "Gt", "Ge": "Le", "Le": "Ge"}.get(o3, o3))):
+                        pl_ = _peel(strip(lim))
+                        if norm(strip(big), roles) == prod and pl_[0] == "const" and pl_[2] == 2 ** 64 - 1 and o4 == "Gt":
+                            good, why = True, "amount*ppm exceeds u64::MAX (the checked product would be None)"
+                where = loc(F.by_cdef[ha[4][0]].term(ha[4][1])["sp"]) if isinstance(ha[4], tuple) and ha[4][0] in F.by_cdef else loc(b.span)
+                rep.ob("C12-X2", good, fn, "`None` required amount is implied by the predicate", where=where, how=why,
+                       detail="" if good else "the required amount is None (so the predicate false) on a path not implied by the reference predicate")
+        return
     # early exits: every `false` constant is guarded by a None arm of a checked op or by total < amount
     for bi in sorted(b.reachable):
         for s in b.blocks[bi]["s"]:
@@ -264,6 +324,37 @@ def c12_x2(F, X, rep, b):
                                 why = "total < amount"
                     rep.ob("C12-X2", good, fn, "early `false` is implied by the predicate", where=loc(s["sp"]), how=why,
                            detail="" if good else "returns false on a path not implied by the reference predicate")
+
+
+def _branch_form(F, X, b, keep):
+    """(comparison, other comparison facts, helper calls whose Some payload the comparison uses) of the one `true` branch"""
+    defs = mm.def_alternatives(F, X, b, {"k": "move", "pl": {"l": 0, "p": []}})
+    trues = [d for d in defs if d[0][0] == "const" and d[0][1] == "true"]
+    if len(trues) != 1 or any(d[0][0] != "const" for d in defs):
+        return None
+    e, vfacts, cfacts, wh = trues[0]
+    deciding, guards = [], []
+    for a, op, c in cfacts:
+        pa, pc = _peel(strip(a)), _peel(strip(c))
+        if pa[0] == "param" and pc[0] == "param":
+            guards.append((a, op, c))
+        else:
+            deciding.append((a, op, c))
+    if len(deciding) != 1:
+        return None
+    a, op, c = deciding[0]
+    cmp_raw = ("bin", op, strip(a), strip(c), None)
+    helpers = []
+    for fe, truth in vfacts:
+        # every Option/Result the branch depends on is one whose payload the comparison reads
+        if truth not in (("Some",), ("Ok",)):
+            return None
+        used = any(show(strip(fe)) in show(x) for x in (strip(a), strip(c)))
+        if not used:
+            return None
+        helpers.append(strip(fe))
+    cmp_in = ("bin", op, strip(mm.inline_pure(F, X, strip(a), depth=2, keep=keep)), strip(mm.inline_pure(F, X, strip(c), depth=2, keep=keep)), None)
+    return cmp_in, guards, helpers
 
 
 def _shown(n):
